@@ -15,6 +15,17 @@ PID = "C11"
 INVARIANTS = ["OneTransition", "OutcomeStable", "NoItemIntoFinished", "BodyRunsOnce", "NoItemLeftPending",
               "ItemsBeforeBatch", "AnnouncedOnce", "Precedence", "ActiveMovedBeforeBody", "ActiveIsPending"]
 CONFIGS = ["own/all", "own/some", "own/none", "own/ierr", "own/raise", "own/braise", "own/new", "debug/all"]
+FIN_CONFIGS = ["own/f%d-%s" % (s, how) for how in ("cancel_e", "cancel", "seterr", "setval") for s in (0, 1)]
+MODES = 3        # replay_c11.py: default options, ENABLE_COMPLEX_ASSERTIONS off, KEEP_DEPENDENCIES on
+ENDINGS = 3      # replay_c11.py: a self-finishing flush body then returns, raises, or tries to set its items again
+
+
+def executions(case, rotate=False):
+    # plain body: once per option setting; self-finishing body: every ending under the default options and one
+    # ending (rotating over the histories) under each other setting; rotate (thorough tier, depth-5 runs): the
+    # default options + one other setting per history, alternating over the histories
+    m = 2 if rotate else MODES
+    return (ENDINGS + m - 1) if case["body"].startswith("f") else m
 
 
 def finishing_with_items(o):
@@ -35,7 +46,10 @@ def main():
             case = json.load(open(a.replay))["case"]
             bname = case.get("build", "pure")
             bdir = sc.build(bname if bname in ("pure", "cy") else "pure")
-            mism, _ = sat.replay(bdir, "replay_c11.py", [case["history"]], nproc=1)
+            hist = dict(case["history"])
+            if case.get("mode"):
+                hist["variant"] = [case["mode"], case.get("ending") or "ret"]
+            mism, _ = sat.replay(bdir, "replay_c11.py", [hist], nproc=1)
             print(json.dumps(mism, indent=1))
             if mism:
                 print("VIOLATION property=%s replay=%s" % (PID, a.replay))
@@ -43,16 +57,22 @@ def main():
         builds = {"pure": sc.build("pure")}
         if tier == "thorough" and not os.environ.get("VERIF_SKIP_CY"):
             builds["cy"] = sc.build("cy")
-        depth, maxi = (4, 2) if tier == "quick" else (5, 3)
-        # quick: one TLC run over all configurations; thorough: one run per (kind, flush body) to bound memory
-        runs = ["*"] if tier == "quick" else CONFIGS
-        states = trans = total = nmis = nhist = nontriv = 0
+        # quick: one TLC run over all configurations (self-finishing bodies start with 2 requests made);
+        # thorough: one run per (kind, flush body) to bound memory, self-finishing bodies one level shallower
+        if tier == "quick":
+            depth, maxi = 4, 2
+            runs = [("*", 4, {"FINPRE": "2"})]
+        else:
+            depth, maxi = 5, 3
+            runs = [(c, 5, {"C11_ROTATE_MODES": "1"}) for c in CONFIGS] + [(c, 4, {}) for c in FIN_CONFIGS]
+        states = trans = total = nmis = nhist = nontriv = nexec = nevals = 0
         model_ok = True
         alarms = []
         tlc_wall = 0.0
         per_body, ops, samples, maxitems = {}, {}, [], 0
-        for only in runs:
-            env = {"DEPTH": str(depth), "MAXI": str(maxi)}
+        for only, d, extra in runs:
+            env = {"DEPTH": str(d), "MAXI": str(maxi)}
+            env.update(extra)
             if only != "*":
                 env["ONLY"] = only
             hs, res = sat.tlc_histories("Batch", "Batch.cfg", sc, env=env)
@@ -70,17 +90,30 @@ def main():
             res.out = ""
             nhist += len(cases)
             for bname, bdir in builds.items():
-                mism, n = sat.replay(bdir, "replay_c11.py", cases)
+                mism, n = sat.replay(bdir, "replay_c11.py", cases, extra_env=extra)
                 if n != len(cases):
                     raise MachineryError("replayed %d of %d histories on %s" % (n, len(cases), bname))
                 total += n
                 nmis += len(mism)
+                for c in cases:
+                    e = executions(c, bool(extra.get("C11_ROTATE_MODES")))
+                    nexec += e
+                    nevals += e * len(c["h"])
                 for m in mism:
                     c = cases[m["i"]]
                     j = m["diff"][0] if isinstance(m["diff"], list) and m["diff"] else 0
                     op = c["h"][j]["o"] if j < len(c["h"]) else "?"
-                    verdict.report("C11." + op, "%s/%s" % (c["kind"], c["body"]),
-                                   {"history": c, "got": m["got"], "first_diff": j, "build": bname})
+                    got = m["got"]
+                    if isinstance(got, str) and not got.startswith("harness"):
+                        op = "hang"
+                    elif isinstance(got, list) and got and got[-1].get("hang"):
+                        op = "hang"
+                    trig = "%s/%s" % (c["kind"], c["body"])
+                    if m.get("mode", "default") != "default":
+                        trig += "/" + m["mode"]
+                    verdict.report("C11." + op, trig,
+                                   {"history": c, "got": got, "first_diff": j, "build": bname,
+                                    "mode": m.get("mode"), "ending": m.get("ending")})
             for c in cases:
                 k = "%s/%s" % (c["kind"], c["body"])
                 per_body[k] = per_body.get(k, 0) + 1
@@ -99,22 +132,28 @@ def main():
         cov = {
             "states": states, "transitions": trans, "traces_validated_against_impl": total,
             "samples": samples[:6],
+            "executions_of_histories": nexec, "option_modes": ["default", "ENABLE_COMPLEX_ASSERTIONS off", "KEEP_DEPENDENCIES on"],
+            "self_finishing_body_endings": ["return", "raise", "set items again"],
             "history_depth": depth, "max_items_per_batch": maxi, "largest_item_index_created": maxitems,
             "histories": nhist, "histories_per_kind_body": per_body,
             "operation_instances": ops, "builds": list(builds), "tlc_runs": len(runs), "tlc_wall_s": round(tlc_wall, 1),
             "model_invariants": INVARIANTS, "model_ok": model_ok, "mismatching_histories": nmis,
-            "evaluations": total * depth, "distinct_nontrivial": nontriv,
+            "evaluations": nevals, "distinct_nontrivial": nontriv,
             "rule": "every operation history of length %d over add/direct/flush/cancel(with,without error)/item.value/batch.value/batch.error/queries "
-                    "on batches 1..2 with <= %d items each, starting with 0 or 2 requests already made, x 7 flush-body behaviours on a BatchBase "
-                    "subclass + the built-in DebugBatch; operations that change nothing are explored in one canonical order and in runs of <= 2 "
+                    "on batches 1..2 with <= %d items each, starting with 0 or 2 requests already made, x 7 plain flush-body behaviours + 8 bodies that "
+                    "finish their own batch half-way (cancel with/without error, set_error, set_value; before/after setting an item%s) on a BatchBase "
+                    "subclass + the built-in DebugBatch; every history executed under 3 option settings%s (a self-finishing body: 3 endings under the default options, one rotating ending under the others); operations that change nothing are explored in one canonical order and in runs of <= 2 "
                     "when consecutive; non-trivial = a batch with at least one item finishes and a further operation follows; "
-                    "evaluations = operation results compared" % (depth, maxi),
+                    "evaluations = operation results compared" % (depth, maxi, "; these start with 2 requests made" if tier == "quick" else "; depth 4",
+                                                                 "" if tier == "quick" else " (depth-5 histories: default + one alternating other setting)"),
             "exhaustive": True,
         }
         rc = verdict.finish()
         common.write_evidence(PID, "model_checking", cov, time.time() - t0, violations=len(verdict.violations),
                               assumptions=["histories are bounded by depth %d, operations address the first 2 batches of one kind, <= %d items per batch" % (depth, maxi),
-                                           "the flush body behaves the same way for every batch of a history and does not re-enter flush()/cancel() of its own batch",
+                                           "the flush body behaves the same way for every batch of a history; it may finish its own batch (cancel/set_error/set_value) but does not re-enter flush()",
+                                           "debug options and the way a self-finishing body ends are not dimensions of the specification: every variant is compared with the same prescribed results",
+                                           "the scheduler is never run on these objects; a history that burns 3 (then 9) CPU seconds is reported as a hang",
                                            "is_flushed() of a cancelled batch, is_cancelled() of a batch whose flush failed, is_empty() of a finished batch and "
                                            "the result of flush() on a cancelled batch are not prescribed by the property (only: the body must not run)",
                                            "body executions are not observable on the built-in DebugBatch (compared on the harness subclass only)",
